@@ -1,13 +1,13 @@
 SPECIFICATION Spec
 CONSTANTS
   TW = 2
-  MaxN = 9
+  MaxN = 6
   Deltas = {0, 1, 3}
   Guard1 = TRUE
   Guard4 = TRUE
   EdgeSlack = 0
   ExpLess = 0
-  SizeFrom = "pub"
+  SizeFrom = "lock"
 INVARIANTS
   TypeOK
   ToolIsDeletable
